@@ -16,7 +16,8 @@ FIELD_NAMES = ('alpha', 'beta_two', 'my_field', 'id_num', 'url_path', 'count', '
                'qq_rr', 'payload', 'opt_one', 'flag_on', 'key_name', 'data')
 ALIAS_NAMES = ('aka', 'other', 'alt-name', 'Alt', 'x1', 'short', 'weird key', 'ALIAS')
 STYLES = ('snake', 'camel', 'pascal', 'kebab', 'scream')
-LIT_POOLS = (('a', 'b', 'c'), (1, 2, 3), ('x', 1), (True, 'yes'), (None, 'n'), (0, 1), ('', ' '), (b'k', 'k'), (1.5, 2))
+LIT_POOLS = (('a', 'b', 'c'), (1, 2, 3), ('x', 1), (True, 'yes'), (None, 'n'), (0, 1), ('', ' '), (b'k', 'k'), (1.5, 2),
+             (0, False), (1, True, 'auto'), (False, 0, 'off'))
 ENUM_POOLS = (
     (('A', 1), ('B', 2)), (('A', 'a'), ('B', 'b'), ('C', 'c')), (('A', 1), ('B', 'b')),
     (('A', 1.5), ('B', 2.0)), (('A', 1), ('B', 2.5)), (('N', None), ('S', 's')), (('X', 0), ('Y', 1), ('Z', 2)),
@@ -44,7 +45,7 @@ def _leaf(k, rng):
         n = rng.randint(1, len(pool))
         return Ty('lit', vals=tuple(pool[:n]))
     if k == 'enum':
-        return Ty('enum', members=rng.choice(ENUM_POOLS))
+        return Ty('enum', members=rng.choice(ENUM_POOLS), missing_hook=rng.random() < 0.25)
     return Ty(k)
 
 
@@ -119,9 +120,16 @@ def gen_type(rng, depth, lit_ok=True, hashable=False, allow=None, no_dc=False):
             return ms[0]
         return Ty('union', ms)
     if k == 'cond':
-        inner_kind = rng.choice(('int', 'float', 'list', 'str'))
-        if hashable and inner_kind == 'list':
+        inner_kind = rng.choice(('int', 'float', 'list', 'str', 'decimal', 'seq', 'ndarray'))
+        if hashable and inner_kind in ('list', 'ndarray'):
             inner_kind = 'int'
+        if inner_kind == 'decimal':
+            return Ty('cond', [Ty(rng.choice(('decimal', 'fraction')))], conds=[C.with_names(rng.choice(({'op': 'positive'}, {'op': 'nonneg'}, {'op': 'val_range', 'min': 0, 'max': 10})))])
+        if inner_kind == 'seq':
+            return Ty('cond', [Ty('seq', [Ty('int')])], conds=[C.with_names(rng.choice(({'op': 'user', 'fn': 'first_positive'}, {'op': 'nonempty'}, {'op': 'len_range', 'max': 2})))])
+        if inner_kind == 'ndarray':
+            return Ty('cond', [Ty('ndarray', dtype=rng.choice(('int', 'float')))],
+                      conds=[C.with_names(rng.choice(({'op': 'positive'}, {'op': 'shape', 'shape': (2,)}, {'op': 'nonneg'}, {'op': 'broadcastable', 'shape': (2, 2)})))])
         if inner_kind in ('int', 'float'):
             inner = Ty(inner_kind)
             cs = [rng.choice(({'op': 'positive'}, {'op': 'negative'}, {'op': 'nonneg'}, {'op': 'nonpos'},
@@ -143,6 +151,9 @@ def gen_type(rng, depth, lit_ok=True, hashable=False, allow=None, no_dc=False):
     if k == 'vol':
         # ValueOrList[T] is only unambiguous when T itself is not read from a sequence
         inner = gen_leaf(rng, False, allow) if rng.random() < 0.7 else Ty('dict', [Ty('str'), gen_leaf(rng, False, allow)])
+        if VOL_OF_SEQUENCES and rng.random() < 0.3:
+            # from_data can only ever produce the unambiguous readings of these (first member wins)
+            inner = Ty(rng.choice(('list', 'seq')), [Ty(rng.choice(('int', 'str', 'float')))])
         if inner.k in ('any', 'enum') and (inner.k == 'any' or any(isinstance(v, tuple) for _, v in inner.x['members'])):
             inner = Ty('int')
         return Ty('vol', [inner])
@@ -304,6 +315,8 @@ INIT_FALSE_IMPLIES_EXCLUDE = False
 NDARRAY_ANY_LEAVES = True
 # a union with an Any-reading member ahead of others is degenerate for fixed-point checks (Any re-reads every serialised form)
 NO_ANY_IN_UNIONS = False
+# ValueOrList[List[..]]: natively built from_list([]) is ambiguous, values produced by from_data are not
+VOL_OF_SEQUENCES = True
 
 
 def _has_any(ty, depth=0):
@@ -321,6 +334,7 @@ def gen_tagged(rng, depth, layout=None, overlap=None):
     tagname = rng.choice(('tag', 'kind', 'type_of'))
     if layout is None:
         layout = rng.choice((False, False, True, ('t', 'c')))
+    ext_as_list = isinstance(layout, tuple) and rng.random() < 0.3    # Tagged(..., external=['t', 'c']) is accepted too
     variants = []
     base = None
     for i in range(n):
@@ -345,4 +359,4 @@ def gen_tagged(rng, depth, layout=None, overlap=None):
         v = Ty('dc', spec=spec)
         base = base or v
         variants.append(v)
-    return Ty('tagged', variants, tag=tagname, external=layout)
+    return Ty('tagged', variants, tag=tagname, external=layout, ext_as_list=ext_as_list)
